@@ -12,6 +12,7 @@ import SqiModel.Dim2
      d2.norm q c1 c2 | d2.bil q v11 v12 v21 v22 | d2.short q B(4) | d2.coef q a0 a1 b0 b1 t0 t1
      d2.cvp q B(4) t0 t1 | d2.qf q B(4) | d2.bound na da nb db | d2.contains B(4) c1 c2
      d2.bac q x y tmc0 tmc1 B(4) bound p | d2.enum q tmc0 tmc1 B(4) bound maxtries p
+     d2.enumeq q tmc0 tmc1 B(4) bound maxtries v0 v1   (condition: vec == (v0,v1): membership oracle of the enumeration)
      d2.filter B(4) t0 t1 qf dist_bound p max_tries
      resp.model p resplen denom content lll(16) cand(4)*  -> x(5) found count | fzi bb(4) | hyp (4 flags: dg>0, division exact, 2*norm even, det lll != 0)
    `abort` = the C code would divide by zero / take the root of a negative number (GMP aborts). -/
@@ -125,6 +126,12 @@ def handleInts : String → List Int → Option String
       match l with
       | [bound, mt, p] =>
         pure (if p = 0 then "abort" else showFound (enumerateShortVec (cvpCondition p) q ⟨t0, t1⟩ b bound mt.toNat))
+      | _ => none
+  | "d2.enumeq", q :: t0 :: t1 :: l => do
+      let (b, l) ← m2Of l
+      match l with
+      | [bound, mt, v0, v1] =>
+        pure (showFound (enumerateShortVec (eqCondition ⟨v0, v1⟩) q ⟨t0, t1⟩ b bound mt.toNat))
       | _ => none
   | "d2.filter", l => do
       let (b, l) ← m2Of l
